@@ -473,6 +473,13 @@ func (r *Resolver) resolve(ctx context.Context, rs *resolveState) (*dns.Msg, err
 		} else {
 			r.clearResolutionZoneFailure(rs.req.Question[0], rs.servers.Zone)
 		}
+		if resp.Rcode == dns.RcodeNameError {
+			// A bare NXDOMAIN carries no denial proof. Under a signed
+			// chain that is a validation failure, not an answer: let the
+			// negative-response validator decide, exactly as it does for
+			// an NXDOMAIN that still has records attached.
+			return r.authority(ctx, rs.req, resp, rs.parentDS, rs.servers.Zone)
+		}
 		return resp, nil
 	}
 
@@ -507,7 +514,14 @@ func (r *Resolver) resolve(ctx context.Context, rs *resolveState) (*dns.Msg, err
 		return r.processAuthoritySection(ctx, rs, minReq, resp, minimized) // handle delegation or authority data
 	}
 
-	// no answer, no authority. create new msg safer, sometimes received weird responses
+	// no answer, no authority. An empty NOERROR is a NODATA claim without
+	// any proof: under a signed chain it must fail validation like every
+	// other unproven denial before it may be relayed.
+	if _, err := r.authority(ctx, rs.req, resp, rs.parentDS, rs.servers.Zone); err != nil {
+		return nil, err
+	}
+
+	// create new msg safer, sometimes received weird responses
 	m := new(dns.Msg) // return clean empty response instead of malformed data
 
 	m.Question = rs.req.Question
